@@ -174,6 +174,11 @@ func checkC05(c *core.Ctx) {
 		}
 		c.Check("R3", "limiter installed over the saved base reader "+frameKey(rf), anchorPos(gr.p, rf.Spec.Kind, mSR), l.Installed && l.OKShape && l.BaseVar != "",
 			fmt.Sprintf("limiter %+v — %s", l, rf.where(l.Pos)))
+		for _, f := range sr.Fails {
+			if f.Rule == "limiter" {
+				c.Check("R3", failKey(rf, mSR, f), anchorPos(gr.p, rf.Spec.Kind, mSR), false, f.Msg+" — "+rf.where(f.Pos))
+			}
+		}
 		c.Check("R3", "every return of the latch happens with the base reader restored "+frameKey(rf), anchorPos(gr.p, rf.Spec.Kind, mSR), len(l.ReturnsBad) == 0,
 			fmt.Sprintf("%d `return r.Err` while the limiter is still installed: the caller's next read would be cut short or run past the record — %s", len(l.ReturnsBad), rf.where(firstPos(l.ReturnsBad))))
 		c.Check("R3", "no return between the length prefix and the body "+frameKey(rf), anchorPos(gr.p, rf.Spec.Kind, mSR), len(l.ShortReturns) == 0,
@@ -267,11 +272,18 @@ func checkC08(c *core.Ctx) {
 	for _, rf := range gr.ga.Recs {
 		for _, m := range []string{mSW, mSR} {
 			mf := rf.M[m]
-			if !mf.Present {
+			if !mf.Emitted {
 				continue
 			}
 			n := 0
-			for _, f := range mf.Fails {
+			// what is derived from the lifted signature needs a method the reader
+			// understood; the two rules on the syntax tree (R7, R9) do not
+			fails := mf.Fails
+			if !mf.Present {
+				fails = nil
+				n = 1 // no "returns the latch" obligation for a method not understood
+			}
+			for _, f := range fails {
 				switch f.Rule {
 				case "return":
 					n++
